@@ -669,6 +669,26 @@ func (g *Graph) expandFact(f Fact) []Fact {
 	var call *ast.CallExpr
 	outcome := ""
 	switch x := e.(type) {
+	case *ast.Ident:
+		// a boolean local assigned once stands for its definition
+		if d := pat.DefOf(g.Info, x); d != nil {
+			if t := g.Info.TypeOf(x); t != nil {
+				if b, ok := t.Underlying().(*types.Basic); ok && b.Info()&types.IsBoolean != 0 {
+					sub := Facts(d, f.Val)
+					out := append([]Fact{}, sub...)
+					for _, sf := range sub {
+						out = append(out, g.expandFact(sf)...)
+					}
+					return out
+				}
+			}
+		}
+		return nil
+	case *ast.UnaryExpr:
+		if x.Op == token.NOT {
+			return g.expandFact(Fact{x.X, !f.Val})
+		}
+		return nil
 	case *ast.CallExpr:
 		call = x
 		if f.Val {
